@@ -40,8 +40,9 @@ def xml_token(rng, lang):
             if rng.random() < 0.7:
                 d[k] = rng.choice(pool)
         return Token(**d)
-    return Token(word=w, lemma=rng.choice([w, w.lower(), 'XX']), pos=rng.choice(['NN', ',', '-LRB-', 'XX']),
-                 entity=rng.choice(['O', 'I-ORG', 'XX']), chunk=rng.choice(['I-NP', 'XX']))
+    # an attribute may be the empty string (`Token.of_piped('dogs||NNS|O')`): XML represents it as is
+    return Token(word=w, lemma=rng.choice([w, w.lower(), 'XX', '']), pos=rng.choice(['NN', ',', '-LRB-', 'XX']),
+                 entity=rng.choice(['O', 'I-ORG', 'XX', 'XX', '']), chunk=rng.choice(['I-NP', 'XX', 'XX', '']))
 
 
 def gen_nbest(rng, lang, cats):
